@@ -6,7 +6,6 @@ package vpreconf
 
 import (
 	"fmt"
-	"sort"
 	"strings"
 
 	"github.com/NethermindEth/juno/core"
@@ -249,10 +248,4 @@ func (c mChain) apply(o *op) (next mChain, out outcome, affected *mBlock, why st
 		return append(append(mChain(nil), c[:idx]...), &b), outApplied, &b, "classes registered"
 	}
 	panic("unreachable")
-}
-
-func classSetKey(m map[string]core.ClassDefinition) string {
-	k := sortedKeys(m)
-	sort.Strings(k)
-	return strings.Join(k, ",")
 }
